@@ -617,7 +617,14 @@ def run(F, R):
             eq_atom = _eq_target_version(W)
 
             def some_fin_of(v_):
-                return [(a, b) for (a, b, tr) in v_.bool_edges(lambda t: t[0] == "call" and t[1].endswith("Option::<T>::is_some") and "update_finish_time" in lib.apath(t)) if tr]
+                es_ = [(a, b) for (a, b, tr) in v_.bool_edges(lambda t: t[0] == "call" and t[1].endswith("Option::<T>::is_some") and "update_finish_time" in lib.apath(t)) if tr]
+                es_ += [(a, b) for (a, b, tr) in v_.bool_edges(lambda t: t[0] == "call" and t[1].endswith("Option::<T>::is_none") and "update_finish_time" in lib.apath(t)) if not tr]
+                # `match finish_time { Some(_) => .., None => false }` / `if let Some(..) = finish_time`
+                for sb in sorted(v_.reach0):
+                    si = guards.switch_info(v_, sb)
+                    if si and si.kind == "discr" and si.ty.get("d") == "std::option::Option" and "update_finish_time" in fmt_t(si.term) and "get_time" in fmt_t(si.term):
+                        es_ += [(sb, b) for b in v_.succ[sb] if "Some" in si.edge_names(v_, b)]
+                return es_
 
             def eq_os_of(v_):
                 return lib.equal_edges(v_, lambda t: eq_atom(v_, ("call", "std::cmp::PartialEq::eq", t[2])))
